@@ -38,14 +38,8 @@ pub fn job_c09(out_dir: &str, tier: &str, seed: u64) {
         ("observers", json!({"elem":[{"sel":"*","element":[{"op":"on_end_tag","a":[[]]}],"comments":obs}],"doc":[{"doctype":obs}]})),
         ("observers", json!({"elem":[{"sel":"a","element":obs},{"sel":"title","text":obs}]})),
     ];
-    let mut inputs: Vec<Vec<u8>> = (0..gen::FRAGS.len()).map(|i| gen::frag_bytes(i).to_vec()).collect();
-    let mut pool: Vec<usize> = (0..gen::FRAGS.len()).collect();
-    for i in (1..pool.len()).rev() { pool.swap(i, rng.below(i + 1)); }
-    pool.truncate(if quick { 24 } else { 70 });
-    for &a in &pool { for &b in &pool { let mut x = gen::frag_bytes(a).to_vec(); x.extend_from_slice(gen::frag_bytes(b)); inputs.push(x); } }
-    for i in 0..(if quick { 500 } else { 15000 }) {
-        inputs.push(match i % 3 { 0 => gen::random_doc(&mut rng, 12), 1 => gen::random_input(&mut rng, 3, 8), _ => gen::random_bytes(&mut rng, 30) });
-    }
+    let mut inputs = gen::corpus(&mut rng, if quick { 24 } else { 70 }, if quick { 800 } else { 20000 });
+    for _ in 0..(if quick { 150 } else { 4000 }) { inputs.push(gen::random_bytes(&mut rng, 30)); }
     let mut n = 0usize;
     for (ii, input) in inputs.iter().enumerate() {
         if input.is_empty() { continue; }
@@ -53,6 +47,9 @@ pub fn job_c09(out_dir: &str, tier: &str, seed: u64) {
         for ki in 0..nk {
             let (kind, hs) = &kinds[if ii < gen::FRAGS.len() { ki } else { (ii + ki * 2) % kinds.len() }];
             let cfg = gen::merge(hs, &json!({"strict": false, "enc": "utf-8"}));
+            // text that a handler captured is re-encoded (C01's documented exception, decided under C13):
+            // byte counts are only comparable when the input round-trips
+            if has_text_handler(&cfg) && std::str::from_utf8(input).is_err() { continue; }
             // fresh rewriter, one write per prefix
             let fresh_all: Vec<usize> = (1..=input.len()).map(|k| {
                 let tl = driver::run(&cfg, &input[..k], &[], &RunOpts { no_end: true, ..RunOpts::default() });
